@@ -601,6 +601,17 @@ def main():
     w("        _ => unreachable!(),")
     w("    }")
     w("}")
+    w("/// The same resource views requested through a query (`Result::resources`), which is how systems get them;")
+    w("/// `how` 0: next to an identifier iterator, otherwise next to entry views. Returns the number of iterated items.")
+    w("pub fn query_resources(w: &mut Wd, site: usize, how: u8, salt: Option<u64>, rec: &mut Rec) -> usize {")
+    w("    match (site, how) {")
+    ev = f"Views!(Option<&{comps[0]}>)" if comps else "Views!()"
+    for i, vs in enumerate(resource_views):
+        w(f"        ({i}, 0) => {{ rec.write_salt = salt; let res = w.query(Query::<Views!(entity::Identifier), filter::None, {views_ty(vs)}, Views!()>::new()); res.resources.obs(rec); res.iter.count() }}")
+        w(f"        ({i}, _) => {{ rec.write_salt = salt; let res = w.query(Query::<Views!(), filter::None, {views_ty(vs)}, {ev}>::new()); res.resources.obs(rec); res.iter.count() }}")
+    w("        _ => unreachable!(),")
+    w("    }")
+    w("}")
     open(out_path, "w").write("\n".join(o) + "\n")
     print(f"{reg}: insert={len(insert_sites)} extend={len(extend_sites)} cloned={len(cloned_sites)} rows={len(rows_sites)} "
           f"reserve={len(reserve_sites)} queries={len(queries)} entry_queries={len(entry_queries)} "
